@@ -16,6 +16,8 @@ type Coroutine struct {
 	handlers    []Value   // xpcall message handlers active in this coroutine (nil entries for pcall)
 	deathErr    *LuaError // error that killed the coroutine
 	errReported bool      // coroutine.close already returned that error
+	closing     bool      // coroutine.close is unwinding it
+	inCloser    int       // __close handlers of this coroutine that are running
 }
 
 type coMsgKind int
@@ -132,6 +134,11 @@ func (in *Interp) yield(vals []Value) []Value {
 	if co == nil {
 		in.libError("attempt to yield from outside a coroutine")
 	}
+	if co.closing {
+		// the reference implementation refuses this ("attempt to yield across a
+		// C-call boundary"), the manual does not say
+		unspecified("yield from a close handler of a coroutine that is being closed")
+	}
 	in.feat("yield")
 	if co.prot > 0 {
 		in.feat("yield-inside-protected-call")
@@ -142,6 +149,10 @@ func (in *Interp) yield(vals []Value) []Value {
 	case msgKill:
 		panic(coKill{})
 	case msgClose:
+		if co.inCloser > 0 {
+			unspecified("coroutine.close of a coroutine that is suspended inside a close handler")
+		}
+		co.closing = true
 		panic(&LuaError{Val: closeSentinel, Closing: true})
 	}
 	return msg.vals
